@@ -106,6 +106,7 @@ func crashOne(t *testing.T, tape *verifsim.Tape, tier string, keepLog bool, k in
 		defer w.close()
 		w.reg.plan = &faultPlan{}
 		w.publishGGUFModels()
+		focusOpNames()
 		minDownloadPartSize, maxDownloadPartSize = []int64{256, 1 << 10, 4 << 10}[d("partsize", 3)], 16<<10
 		// OLLAMA_NOPRUNE is a supported configuration: start-up then keeps partial
 		// downloads and the repeated pull resumes from the part files
